@@ -1,12 +1,12 @@
 """C04 — relabelling after matching preserves both segmentations."""
 from __future__ import annotations
 import numpy as np
-import impl, gen, scale
+import impl, gen, scale, forms
 from impl import quiet, UnmatchedInstancePair, NaiveThresholdMatching, MaximizeMergeMatching
 from impl import IM
 from panoptica.utils.instancelabelmap import InstanceLabelMap
 
-RULE = ("large-scale corpus (oracle only): arrays of 1.3M-2.25M voxels whose size is not a multiple of 2^20 with relabelled foreground in the C-order tail; the same property through Panoptica_Evaluator.evaluate (label histograms of the reported matched pair), incl. uint8/uint16 scenes with an outlying overlap voxel whose labels add up to 2^bits; memory layouts {C, Fortran, transposed view, negative strides} chosen independently for the two maps; labels of 4*10^7 with relabelling chains; unmatched instance-map pairs x dtype {uint8,16,32,64} x label sets placed at 2^k-1-j (k=8,16) and with gaps x "
+RULE = ("pairs built from views of one buffer / read-only arrays / an ndarray subclass; the same relabellings in a child interpreter started with -O; large-scale corpus (oracle only): arrays of 1.3M-2.25M voxels whose size is not a multiple of 2^20 with relabelled foreground in the C-order tail; the same property through Panoptica_Evaluator.evaluate (label histograms of the reported matched pair), incl. uint8/uint16 scenes with an outlying overlap voxel whose labels add up to 2^bits; memory layouts {C, Fortran, transposed view, negative strides} chosen independently for the two maps; labels of 4*10^7 with relabelling chains; unmatched instance-map pairs x dtype {uint8,16,32,64} x label sets placed at 2^k-1-j (k=8,16) and with gaps x "
         "{label map of the real matchers (threshold, many-to-one, merge), random functional label maps}; "
         "non-trivial = at least one unmatched prediction, or max reference label + #unmatched >= 2^bits - 2")
 
@@ -320,8 +320,77 @@ def evaluate_cases(ctx, n):
         evaluate_case(ctx, pred, ref, rng.choice(["naive", "m2o", "merge"]), rng.choice([0.1, 0.5]), f"eval{i}")
 
 
+def form_cases(ctx, n):
+    """the pair built directly from two views of one buffer (channels-last, even/odd, adjacent windows), from read-only
+    arrays or from an ndarray subclass: the relabelling must be what it is for separately allocated arrays"""
+    rng = ctx.rng
+    for i in range(n):
+        c = gen_case(rng)
+        if c is None:
+            continue
+        pred, ref = c
+        pl = [int(x) for x in np.unique(pred) if x]
+        rl = [int(x) for x in np.unique(ref) if x]
+        ps = rng.sample(pl, rng.randint(0, max(0, len(pl) - 1)))
+        order = [[p, rng.choice(rl)] for p in ps]
+        lmap = {int(p): int(r) for p, r in order}
+        for name, p2, r2 in forms.pair_forms(pred, ref, which=[rng.choice(["channels_last", "even_odd", "window", "readonly", "subclass"])]):
+            inp = {"shape": list(pred.shape), "bits": pred.dtype.itemsize * 8, "pred": gen.arr_json(pred), "ref": gen.arr_json(ref), "lmap": order,
+                   "form": name, "src": f"form{i}"}
+            ctx.case(inp, True)
+            ctx.count("form." + name)
+            lm = InstanceLabelMap()
+            for p, r in order:
+                lm.add_labelmap_entry(int(p), int(r))
+            try:
+                with quiet():
+                    mp = IM.map_instance_labels(UnmatchedInstancePair(p2, r2), lm)
+            except Exception as e:
+                ctx.violation(f"relabelling raised {type(e).__name__} for a pair given as {name}", inp, key={"kind": "raises"})
+                continue
+            fails = check_relabel(pred, ref, np.asarray(mp.prediction_arr), np.asarray(mp.reference_arr), lmap)
+            if fails:
+                ctx.violation(f"C04 violated for a pair given as {name.replace('_', ' ')}: " + fails[0], inp, key={"kind": "relabel-form"})
+
+
+def optimized_interpreter_cases(ctx, n):
+    """the same relabellings in a child interpreter started with -O (assert statements are not executed): the
+    result must be the same as in this process"""
+    rng = ctx.rng
+    tasks, here = [], []
+    for i in range(n):
+        c = gen.shared_value_scene(rng) if i % 3 == 0 else gen_case(rng)
+        if c is None:
+            continue
+        pred, ref = c
+        pl = [int(x) for x in np.unique(pred) if x]
+        rl = [int(x) for x in np.unique(ref) if x]
+        ps = rng.sample(pl, rng.randint(0, max(0, len(pl) - 1)))
+        order = [[p, rng.choice(rl)] for p in ps]
+        j = lambda a: {"data": gen.arr_json(a), "dtype": str(a.dtype), "shape": list(a.shape)}
+        tasks.append({"kind": "relabel", "pred": j(pred), "ref": j(ref), "lmap": order})
+        here.append((pred, ref, order))
+    res = forms.run_child([{"kind": "info"}] + tasks, optimize=True)
+    if isinstance(res, dict) or not isinstance(res[0], dict) or res[0].get("debug") is not False:
+        ctx.notes.append("child interpreter with -O could not be started: " + str(res)[:200])
+        return
+    for (pred, ref, order), out in zip(here, res[1:]):
+        inp = {"shape": list(pred.shape), "bits": pred.dtype.itemsize * 8, "pred": gen.arr_json(pred), "ref": gen.arr_json(ref), "lmap": order,
+               "mode": "python -O", "src": "optimized"}
+        ctx.case(inp, True)
+        ctx.count("python_-O")
+        if isinstance(out, str):
+            ctx.violation(f"relabelling raised {out} in an interpreter started with -O", inp, key={"kind": "raises"})
+            continue
+        fails = check_relabel(pred, ref, np.array(out["pred"]).reshape(pred.shape), np.array(out["ref"]).reshape(ref.shape), {int(p): int(r) for p, r in order})
+        if fails:
+            ctx.violation("C04 violated in an interpreter started with -O (assert statements stripped): " + fails[0], inp, key={"kind": "relabel-optimized"})
+
+
 def run(ctx):
     corpus(ctx)
+    form_cases(ctx, ctx.scale(150, 1500))
+    optimized_interpreter_cases(ctx, ctx.scale(60, 400))
     for k, (rec, lm) in enumerate(scale_recipes()):
         scale_case(ctx, rec, lm, f"scale{k}")
     evaluate_cases(ctx, ctx.scale(120, 1200))
@@ -337,6 +406,12 @@ def replay(ctx, rec):
     i = rec["input"]
     if "recipe" in i:
         scale_case(ctx, i["recipe"], i["lmap"], "replay")
+        return
+    if i.get("mode") == "python -O":
+        optimized_interpreter_cases(ctx, 60)
+        return
+    if i.get("form"):
+        form_cases(ctx, 200)
         return
     if i.get("via") == "evaluate":
         dt = np.dtype(i["dtype"])
